@@ -320,5 +320,5 @@ ConfSXA == [cls |-> [b1 |-> "S", b2 |-> "X", b3 |-> "A"], h |-> [b1 |-> 1, b2 |-
 ConfSFS == [cls |-> [b1 |-> "S", b2 |-> "F", b3 |-> "S"], h |-> [b1 |-> 0, b2 |-> 1, b3 |-> 2]]
 ConfSXF == [cls |-> [b1 |-> "S", b2 |-> "X", b3 |-> "F"], h |-> [b1 |-> 0, b2 |-> 2, b3 |-> 1]]
 Conf4a == [cls |-> [b1 |-> "A", b2 |-> "B", b3 |-> "C", b4 |-> "S"], h |-> [b1 |-> 2, b2 |-> 1, b3 |-> 3, b4 |-> 4]]
-Conf4b == [cls |-> [b1 |-> "S", b2 |-> "Y", b3 |-> "F", b4 |-> "A"], h |-> [b1 |-> 0, b2 |-> 2, b3 |-> 1, b4 |-> 2]]
+
 ====
